@@ -1,7 +1,7 @@
 (* SympyTotal.v — "they are produced for any acyclic dependency depth" (C20): whenever the model has a
    statement order (no cycle), the mirror of sympytools.rhs_matrix with the default bound returns a
    right-hand side, after at most one substitution round, for every dependency depth.  The proof uses
-   the soundness of the order (OrderSound.sorted_names_sound): every intermediate an intermediate reads
+   the soundness of the order (OrderSound.sorted_names_sound): every definition (intermediate or state derivative) a definition reads
    has been expanded before it. *)
 From GX Require Import Base Expr Topo KahnSound Ode OrderSound Target Sem Schemes Sympytools MirrorValid.
 From Coq Require Import Lia.
@@ -33,33 +33,25 @@ Section Total.
   Variable ord : list string.
   Hypothesis Hord : sorted_names o false = Some ord.
 
-  Definition IN (x : string) : Prop := is_inter_name o x = true.
+  Definition IN (x : string) : Prop := is_assigned o x = true.
   Definition inter_free (e : expr) : Prop := forall y, In y (vars e) -> ~ IN y.
 
-  Lemma mentions_inter_false e : inter_free e -> mentions_inter o e = false.
+  Lemma mentions_assigned_false e : inter_free e -> mentions_assigned o e = false.
   Proof.
-    intros H. unfold mentions_inter. destruct (existsb (is_inter_name o) (vars e)) eqn:E; [|reflexivity].
+    intros H. unfold mentions_assigned. destruct (existsb (is_assigned o) (vars e)) eqn:E; [|reflexivity].
     apply existsb_exists in E. destruct E as [y [Hy Hi]]. exfalso. exact (H y Hy Hi).
   Qed.
 
-  Lemma IN_find x : IN x -> exists a, find (fun a => String.eqb (a_name a) x) (o_inters o) = Some a.
+  Lemma IN_find x : IN x -> exists a, find_assign o x = Some a.
   Proof.
-    unfold IN, is_inter_name. intros H. apply mem_In in H. apply in_map_iff in H. destruct H as [a0 [E H]].
-    destruct (find (fun a => String.eqb (a_name a) x) (o_inters o)) as [a|] eqn:Ef; [eauto|].
+    unfold IN, is_assigned. intros H. apply mem_In in H. apply in_map_iff in H. destruct H as [a0 [E H]].
+    unfold find_assign. destruct (find (fun a => String.eqb (a_name a) x) (assigns o)) as [a|] eqn:Ef; [eauto|].
     pose proof (find_none _ _ Ef a0 H) as Hc. simpl in Hc. rewrite E, String.eqb_refl in Hc. discriminate.
-  Qed.
-
-  Lemma find_inter_assign n a :
-    find (fun a => String.eqb (a_name a) n) (o_inters o) = Some a -> find_assign o n = Some a.
-  Proof.
-    unfold find_assign, assigns. generalize (o_inters o). intros l. induction l as [|b l IH]; simpl; [discriminate|].
-    destruct (String.eqb (a_name b) n); [auto|exact IH].
   Qed.
 
   Lemma IN_assign x : IN x -> In x (all_assign_names o).
   Proof.
-    unfold IN, is_inter_name. intros H. apply mem_In in H. apply all_assign_names_In.
-    unfold assigns. rewrite map_app. apply in_or_app. left. exact H.
+    unfold IN, is_assigned. intros H. apply mem_In in H. apply all_assign_names_In. exact H.
   Qed.
 
   (* the state of the expansion after the names in [pre] *)
@@ -72,7 +64,7 @@ Section Total.
   Proof.
     intros E [H1 H2]. destruct (sorted_names_sound o false ord Hord) as (_ & _ & _ & Htopo).
     unfold expand_step.
-    destruct (find (fun a => String.eqb (a_name a) n) (o_inters o)) as [a|] eqn:Ef.
+    destruct (find_assign o n) as [a|] eqn:Ef.
     - split.
       + intros x e Hl. rewrite lookup_app in Hl. destruct (lookup x acc) as [e0|] eqn:E0.
         * injection Hl as <-. exact (H1 x e0 E0).
@@ -80,7 +72,7 @@ Section Total.
           intros y Hy. apply vars_subst in Hy. destruct Hy as [z [Hz [[Hn ->]|[e' [He' Hy]]]]].
           -- intros Hin. apply (H2 z Hin); [|exact Hn].
              apply (Htopo pre n post E z); [|exact (IN_assign z Hin)].
-             unfold deps_of. rewrite (find_inter_assign n a Ef). unfold adeps.
+             unfold deps_of. rewrite Ef. unfold adeps.
              rewrite sort_names_In, dedup_In. exact Hz.
           -- exact (H1 z e' He' y Hy).
       + intros x Hin Hx. rewrite lookup_app. apply in_app_or in Hx. destruct Hx as [Hx|[<-|[]]].
@@ -111,7 +103,7 @@ Section Total.
     apply Hall; [exact (IN_assign x H)|left; reflexivity].
   Qed.
 
-  (* one substitution with the expanded dictionary leaves no intermediate *)
+  (* one substitution with the expanded dictionary leaves no defined name: neither intermediate nor state derivative *)
   Lemma one_round_inter_free e : inter_free (subst (exp_subst o ord) e).
   Proof.
     destruct expanded_inv as [H1 H2]. intros y Hy. apply vars_subst in Hy.
@@ -121,10 +113,10 @@ Section Total.
   Qed.
 
   Lemma existsb_map_false es :
-    existsb (mentions_inter o) (map (subst (exp_subst o ord)) es) = false.
+    existsb (mentions_assigned o) (map (subst (exp_subst o ord)) es) = false.
   Proof.
     induction es as [|e es IH]; simpl; [reflexivity|].
-    rewrite (mentions_inter_false _ (one_round_inter_free e)), IH. reflexivity.
+    rewrite (mentions_assigned_false _ (one_round_inter_free e)), IH. reflexivity.
   Qed.
 
   (* the right-hand side is produced: for any dependency depth, with the default bound *)
@@ -132,11 +124,11 @@ Section Total.
   Proof.
     unfold rhs_matrix. rewrite Hord. unfold default_tries.
     set (es0 := rhs_init o ord). cbn [rhs_loop].
-    destruct (existsb (mentions_inter o) es0) eqn:E0.
-    - (* some intermediate is mentioned, so there is at least one intermediate *)
-      destruct (o_inters o) as [|a l] eqn:El.
-      + exfalso. apply existsb_exists in E0. destruct E0 as [e [_ He]]. unfold mentions_inter in He.
-        apply existsb_exists in He. destruct He as [y [_ Hy]]. unfold is_inter_name in Hy. rewrite El in Hy.
+    destruct (existsb (mentions_assigned o) es0) eqn:E0.
+    - (* some defined name is mentioned, so there is at least one definition *)
+      destruct (assigns o) as [|a l] eqn:El.
+      + exfalso. apply existsb_exists in E0. destruct E0 as [e [_ He]]. unfold mentions_assigned in He.
+        apply existsb_exists in He. destruct He as [y [_ Hy]]. unfold is_assigned in Hy. rewrite El in Hy.
         discriminate.
       + cbn [length rhs_loop]. rewrite existsb_map_false. cbn. eexists. reflexivity.
     - cbn. eexists. reflexivity.
